@@ -3,7 +3,7 @@
 set -e
 cd "$(dirname "$0")"
 export PYTHONPATH=/repo:/verif PYTHONHASHSEED=0 PYTHONDONTWRITEBYTECODE=1
-if [ -f tools/py2gallina.py ]; then /venv/bin/python -W ignore tools/py2gallina.py --all || echo "translator failed (fail-closed); checks depending on Gen/ will report it"; fi
+for t in tools/gen_*.py; do [ -f "$t" ] && { /venv/bin/python -W ignore "$t" || echo "translator $t failed (fail-closed); checks depending on its Gen/ output will report it"; }; done
 cd coq
 { echo "-Q theories UPV"; echo "-arg -w -arg -notation-overridden,-deprecated-hint-without-locality,-deprecated-instance-without-locality"; find theories -name '*.v' | sort; } > _CoqProject
 coq_makefile -f _CoqProject -o Makefile >/dev/null
